@@ -93,6 +93,9 @@ def pyval(s, env):
 def _val(x):
     if isinstance(x, tuple):
         return sum((i + 2) * _val(e) for i, e in enumerate(x)) + 11
+    if isinstance(x, slice):    # every part counts, an omitted part differs from any number
+        return 7 + sum((i + 3) * (17 if v is None else _val(v))
+                       for i, v in enumerate((x.start, x.stop, x.step)))
     return x
 
 
@@ -415,6 +418,13 @@ def workload(ctx):
                         f"b * {u}2 {o} a", f"b {o} {u}3 ** a"]
         for o1, o2 in itertools.product(BIN, BIN):
             strings += [f"2 {o1} b {o2} c", f"a {o1} 2 {o2} c", f"a {o1} b {o2} 2"]
+        # slices (only inside subscripts, where Python has them), also next to the other
+        # low-precedence constructs: conditionals, tuples, comparisons, 'not'
+        strings += ["o[a:b]", "o[a:]", "o[:b]", "o[:]", "o[a:b:c]", "o[::c]", "o[a::c]", "o[:b:c]", "o[a:b:]",
+                    "o[a + b:c * d]", "o[a if b else c:d]", "o[a:b if c else d]", "o[a if b else c:]",
+                    "o[a:b if c else d:e]", "o[a:b, c]", "o[a, b:c]", "o[a:b, c:d]", "o[a < b:c]",
+                    "o[not a:b]", "o[a:not b]", "o[a or b:c and d]", "o[-a:-b:-c]", "o[a:b][c:d]",
+                    "o[(a if b else c):d]", "o[a | b:c ^ d]", "o[f(a):f(b, k=c)]"]
         # tuples, incl. the EMPTY tuple next to a comma, where Python can use them
         strings += ["f((), a)", "f(a, ())", "f(())", "f((), ())", "f(((), a))", "f(((),))", "f(((), ()))",
                     "o[(), 1]", "o[1, ()]", "o[((), a)]", "f(a, k=((), b))", "f(k=())", "f((a,), b)",
